@@ -135,6 +135,10 @@ def gen_tree(rng, L, nleaves=None, scalar_ok=True):
   return [rng.choice(pool) for _ in range(nl)]
 
 
+class _ClientDropped(Exception):
+  """raised by the injected failing client stream"""
+
+
 class C11(core.Property):
   ID = 'C11'
   RULE = ('cases: single quantizer calls (vector kind const/zeros/on-grid/ints/dyadic/normal/2^40 range/'
@@ -143,7 +147,8 @@ class C11(core.Property):
           'aggregator object (4 aggregators + arithmetic coding, 0..4 clients incl. weight 0 and all-zero leaves, '
           '1..4 rounds, 1..3 leaves, leaf shapes / number of leaves constant or changing between rounds, tiny / '
           'mixed / large magnitudes; bit increment judged per round on that round\'s tree; round 0 replayed from '
-          'init() at the end), expectation estimates over 4096 keys (Bernstein bound, 1e-10), u==0 hunts, float32 range probes; '
+          'init() at the end; failed attempts (client stream raises after k clients) followed by the retry from '
+          'the unchanged state, compared with a fresh aggregator object; one > 64-client round per aggregator), expectation estimates over 4096 keys (Bernstein bound, 1e-10), u==0 hunts, float32 range probes; '
           'non-trivial = the vector has at least one coordinate strictly between two grid levels '
           '(quant/bias) or at least two clients with different trees (agg); distinct by case digest')
   TRUSTED = ['JAX PRNG idealisation: distinct key paths give independent uniform streams (C11_keys_fresh '
@@ -213,10 +218,12 @@ class C11(core.Property):
               if n <= 3:
                 yield {'kind': 'quant', 'q': q, 'v': [f32(x * 2.0 ** -33) for x in v], 'shape': [n], 'L': L,
                        'seed': code % 7, 'vk': 'enum*2^-33'}
+    n_cohort = {'quick': 4, 'thorough': 24, 'search': 4}[tier]
     sched = (['quant'] * n_quant + ['agg'] * n_agg + ['bias'] * n_bias + ['grid_big'] * n_big +
-             ['tie_big'] * (n_big // 2))
+             ['tie_big'] * (n_big // 2) + ['cohort'] * n_cohort)
     rng.shuffle(sched)
     agg_i = rng.randrange(40)
+    cohort_i = rng.randrange(4)
     for kind in sched:
       if kind == 'quant':
         shape = rng.choice(SHAPES)
@@ -228,6 +235,10 @@ class C11(core.Property):
       elif kind == 'agg':
         yield self.gen_agg(rng, agg_i)
         agg_i += 1
+      elif kind == 'cohort':
+        # idx 0..3 = uniform, drive, rotated, tern: each aggregator gets a > 64-client round per run
+        yield self.gen_agg(rng, cohort_i % 4, cohort=rng.choice([65, 66, 70, 129]) if tier != 'quick' else rng.choice([65, 66, 70]))
+        cohort_i += 1
       elif kind == 'bias':
         L = rng.choice([2, 3, 4, 7, 16])
         n = rng.choice([3, 5, 8])
@@ -240,7 +251,7 @@ class C11(core.Property):
         yield {'kind': 'grid_big', 'q': rng.choice(['binary', 'binary', 'uniform', 'tern']), 'log2n': 22,
                'seed': rng.randrange(1 << 30)}
 
-  def gen_agg(self, rng, idx=None):
+  def gen_agg(self, rng, idx=None, cohort=None):
     # stratified over (aggregator, how the tree changes between rounds) so that every combination
     # occurs in every run, whatever the seed
     AGGS = ['uniform', 'drive', 'rotated', 'tern', 'uniform_arith', 'drive', 'rotated', 'uniform']
@@ -251,6 +262,13 @@ class C11(core.Property):
     L = rng.choice([2, 3, 4, 7, 16] if agg == 'rotated' else LEVELS)
     scalar_ok = agg not in ('rotated', 'drive')
     shapes = gen_tree(rng, L, scalar_ok=scalar_ok)
+    # faults: a failed attempt of a round (the client iterable raises after k clients) precedes the
+    # real attempt from the unchanged state on the same aggregator object.  Every arithmetic-coding
+    # history has one; the other aggregators alternate (so each has faulted and fault-free histories).
+    faulted = cohort is None and (agg == 'uniform_arith' or ((idx // 8) + (idx % 8)) % 2 == 0)
+    if cohort is not None:
+      # one round with more than 64 clients (key streams that repeat or run out only show here)
+      shapes = [rng.choice([[1], [3]])]
     # one aggregator object serves the whole history; the tree may keep its keys and change its
     # leaf shapes between rounds ('shapes'), or even its number of leaves ('leaves')
     vary = VARY[(idx // 8) % 5]
@@ -258,7 +276,9 @@ class C11(core.Property):
     case_scale = rng.choice([None, None, None, -24, -30, -40, 20])
     rounds, round_shapes = [], []
     size = lambda shs: sum(int(np.prod(sh)) if sh else 1 for sh in shs)
-    for r in range(rng.choice([1, 2, 2, 3, 3, 4] if vary == 'same' else [2, 2, 3, 3, 4])):
+    nrounds = 1 if cohort is not None else rng.choice([1, 2, 2, 3, 3, 4] if vary == 'same' else [2, 2, 3, 3, 4])
+    fault_round = rng.randrange(nrounds) if faulted else None
+    for r in range(nrounds):
       if r > 0 and vary == 'shapes':
         first = round_shapes[0]
         for _ in range(8):   # same keys, and at least one round with a different number of parameters
@@ -270,7 +290,13 @@ class C11(core.Property):
       elif r > 0 and vary == 'leaves':
         shapes = gen_tree(rng, L, scalar_ok=scalar_ok)
       clients = []
-      for _ in range(rng.choice([1, 2, 3, 4]) if rng.random() > 0.04 else 0):
+      if cohort is not None:
+        ncl = cohort
+      elif r == fault_round:
+        ncl = rng.choice([2, 3, 4])
+      else:
+        ncl = rng.choice([1, 2, 3, 4]) if rng.random() > 0.04 else 0
+      for _ in range(ncl):
         leaves = []
         for sh in shapes:
           n = int(np.prod(sh)) if sh else 1
@@ -282,8 +308,16 @@ class C11(core.Property):
         clients.append([leaves, w])
       rounds.append(clients)
       round_shapes.append(shapes)
-    return {'kind': 'agg', 'agg': agg, 'L': L, 'round_shapes': round_shapes, 'rounds': rounds,
+    case = {'kind': 'agg', 'agg': agg, 'L': L, 'round_shapes': round_shapes, 'rounds': rounds,
             'seed': rng.randrange(1 << 30)}
+    if faulted:
+      n = len(rounds[fault_round])
+      # k = number of clients consumed before the stream raises (k = 0: nothing consumed; k = n: all)
+      ks = [rng.choice([1, 1, 2, n]) if agg == 'uniform_arith' else rng.randrange(0, n + 1)]
+      if rng.random() < 0.3:
+        ks.append(rng.randrange(0, n + 1))        # two failed attempts in a row
+      case['faults'] = [[fault_round, min(k, n)] for k in ks]
+    return case
 
   @staticmethod
   def rshapes(case):
@@ -338,13 +372,21 @@ class C11(core.Property):
       rounds = case['rounds']
       rs = self.rshapes(case)
       base = {k: v for k, v in case.items() if k != 'shapes'}
+      faults = case.get('faults', [])
+      for i in range(len(faults)):
+        yield dict(base, round_shapes=rs, faults=faults[:i] + faults[i + 1:])
+      for i, (fr, k) in enumerate(faults):
+        if k > 0:
+          yield dict(base, round_shapes=rs, faults=faults[:i] + [[fr, k - 1]] + faults[i + 1:])
       if len(rounds) > 1:
         for i in range(len(rounds)):
-          yield dict(base, rounds=rounds[:i] + rounds[i + 1:], round_shapes=rs[:i] + rs[i + 1:])
+          yield dict(base, rounds=rounds[:i] + rounds[i + 1:], round_shapes=rs[:i] + rs[i + 1:],
+                     faults=[[fr - (fr > i), k] for fr, k in faults if fr != i])
       for r, cl in enumerate(rounds):
         if len(cl) > 1:
           for i in range(len(cl)):
-            yield dict(base, round_shapes=rs, rounds=rounds[:r] + [cl[:i] + cl[i + 1:]] + rounds[r + 1:])
+            yield dict(base, round_shapes=rs, rounds=rounds[:r] + [cl[:i] + cl[i + 1:]] + rounds[r + 1:],
+                       faults=[[fr, min(k, len(cl) - 1) if fr == r else k] for fr, k in faults])
       # drop leaf l in every round that has it
       nlmax = max(len(x) for x in rs)
       if nlmax > 1:
@@ -754,16 +796,40 @@ class C11(core.Property):
       aggr = self.make_agg(case, root)
       st = aggr.init()
       states = [st]
-      for clients, shapes in zip(case['rounds'], rs):
+      faults = {}
+      for fr, k in case.get('faults', []):
+        faults.setdefault(fr, []).append(k)
+      faulted_before = False
+      for r, (clients, shapes) in enumerate(zip(case['rounds'], rs)):
+        cpw = [(b'c%d' % i, tree_of(lv, shapes), w) for i, (lv, w) in enumerate(clients)]
+        # failed attempts of this round: the client stream raises after k clients were consumed;
+        # the caller then retries from the unchanged state on the same aggregator object
+        for k in faults.get(r, []):
+          def stream(k=k):
+            for i, c in enumerate(cpw):
+              if i == k:
+                raise _ClientDropped(f'client {i} did not report')
+              yield c
+            raise _ClientDropped('stream broke after the last client')
+          try:
+            aggr.apply(stream(), st)
+            corr.append(f'round {r}: apply returned although its client stream raised after {k} clients')
+          except _ClientDropped:
+            ctx.count('failed_attempts_injected')
+          faulted_before = True
         for s in rec.values():
           s.clear()
-        cpw = [(b'c%d' % i, tree_of(lv, shapes), w) for i, (lv, w) in enumerate(clients)]
         snaps = [[l.copy() for l in flat(t)] for _, t, _ in cpw]
         out, st2 = aggr.apply(cpw, st)
         if any(not np.array_equal(s, l) for sn, (_, t, _) in zip(snaps, cpw) for s, l in zip(sn, flat(t))):
           problems.append('client params mutated by apply')
         impl_rounds.append({'out': None if out is None else flat(out), 'st': st2,
-                            'rec': {k: list(v) for k, v in rec.items()}, 'prev': st})
+                            'rec': {k: list(v) for k, v in rec.items()}, 'prev': st, 'ref': None})
+        if faulted_before:
+          # reference for the retried round (and the rounds after it): the same clients and state on
+          # a freshly built aggregator object
+          out_f, st_f = self.make_agg(case, root).apply(cpw, st)
+          impl_rounds[-1]['ref'] = (None if out_f is None else flat(out_f), st_f)
         st = st2
         states.append(st)
       # hidden state in the aggregator object: replaying round 0 from a fresh init() on the SAME
@@ -891,8 +957,18 @@ class C11(core.Property):
       nb = float(ir['st'].num_bits)
       delta = nb - bits_prev
       if a == 'uniform_arith':
+        # documented value: the mean over THIS round's clients of the code length of their quantised
+        # trees (data dependent; the code length itself is the module's arithmetic_encoding_num_bits)
+        costs = [sum(float(C.arithmetic_encoding_num_bits(jnp.asarray(lf))) for lf in flat(e['out']))
+                 for e in ir['rec']['quant']]
+        want = sum(costs) / len(costs) if costs else 0.0
         if not math.isfinite(nb) or delta < 0 or (clients and delta <= 0):
           problems.append(f'round {r}: arithmetic-coding bit count {bits_prev} -> {nb}')
+          okey = okey or f'C11/{a}/bits'
+        elif len(costs) == len(clients) and abs(delta - want) > 1e-5 * (abs(nb) + want) + 1e-4:
+          problems.append(f'round {r}: num_bits grew by {delta}, but the mean arithmetic code length of this '
+                          f"round's {len(costs)} quantised client trees is {want}"
+                          + (' (the round was retried after a failed attempt)' if any(fr == r for fr, _ in case.get('faults', [])) else ''))
           okey = okey or f'C11/{a}/bits'
       else:
         per = {'uniform': math.log2(L), 'rotated': math.log2(L), 'tern': math.log2(3), 'drive': 1.0}[kind]
@@ -902,6 +978,24 @@ class C11(core.Property):
                           f'({per:.4g} bits x {P} params + 64 x {nleaves} leaves)')
           okey = okey or f'C11/{a}/bits'
       bits_prev = nb
+      # (5) a retried round (after failed attempts on the same aggregator object) and the rounds after
+      # it equal the same round on a freshly built aggregator: output, key and bit count
+      if ir['ref'] is not None:
+        out_f, st_f = ir['ref']
+        same_out = (out_f is None) == (out is None) and (
+            out is None or all(np.array_equal(x, y, equal_nan=True) for x, y in zip(out, out_f)))
+        nb_f = float(st_f.num_bits)
+        diffs = []
+        if not same_out:
+          diffs.append('aggregate differs')
+        if not np.array_equal(np.asarray(st_f.rng), np.asarray(ir['st'].rng)):
+          diffs.append('state key differs')
+        if abs(nb - nb_f) > 1e-6 * abs(nb_f) + 1e-6:
+          diffs.append(f'num_bits {nb} vs {nb_f} on a fresh aggregator')
+        if diffs:
+          problems.append(f'round {r} (after failed attempts {case.get("faults")} as [round, clients consumed]) differs '
+                          f'from the same round on a fresh aggregator object: ' + ', '.join(diffs))
+          okey = okey or f'C11/{a}/retry-differs'
 
       # ---- correspondence
       m_out, m_log, m_const, m_rng = mr
@@ -969,7 +1063,8 @@ class C11(core.Property):
     varies = 'same' if all(x == rs[0] for x in rs) else ('leaves' if len({len(x) for x in rs}) > 1 else 'shapes')
     mags = [abs(x) for rd in case['rounds'] for lv, _ in rd for leaf in lv for x in leaf if x != 0.0]
     mag = 'zero' if not mags else ('tiny' if max(mags) < 1e-6 else ('large' if max(mags) > 1e5 else 'unit'))
-    tags = (f'agg={a}', f'rounds={R}', f'clients={ncl}', f'leaves={len(ALL)}', f'tree_over_rounds={varies}',
+    tags = (f'agg={a}', f'rounds={R}', f'clients={ncl if ncl <= 4 else ">64" if ncl > 64 else ">4"}',
+            f'failed_attempts={len(case.get("faults", []))}', f'leaves={len(ALL)}', f'tree_over_rounds={varies}',
             f'magnitude={mag}', f'L={L}' if kind in ('uniform', 'rotated') else 'L=-')
     return Outcome(oracle_fail='; '.join(problems[:3]) or None, corr_fail='; '.join(corr[:3]) or None, key=okey,
                    nontrivial=distinct, tags=tags,
